@@ -249,7 +249,7 @@ Definition run_derive (prop : Z) (case obs : val) : val :=
    change, so the model's observation is "all equal, nothing shared"; the object-level statement is model/Heap.v. *)
 Definition run_inputs_unchanged (case obs : val) : val :=
   match case with
-  | VList [VList [ins; op; ss; ps; ft]; VInt nsteps; VInt is_discover] =>
+  | VList [VList [ins; op; ss; ps; ft]; VInt nsteps; VInt is_discover; _] =>
       match decode_rcase (VList [ins; op; ss; ps; ft]) with
       | None => VList [VInt (-1)]
       | Some k =>
